@@ -198,11 +198,16 @@ func (collection *linkCollectionImpl) GetLinks(tx *bbolt.Tx, id string) []string
 }
 
 func (collection *linkCollectionImpl) IterateLinks(tx *bbolt.Tx, id []byte) ast.SeekableSetCursor {
-	fieldBucket := collection.getFieldBucket(tx, id)
-	if !fieldBucket.HasError() {
-		return fieldBucket.IterateStringList()
+	// read-only lookup: iterating links must not create the link bucket
+	entityBucket := collection.field.GetStore().GetEntityBucket(tx, id)
+	if entityBucket == nil {
+		return ast.EmptyCursor
 	}
-	return ast.EmptyCursor
+	fieldBucket := entityBucket.GetPath(collection.field.GetPath()...)
+	if fieldBucket == nil || fieldBucket.HasError() {
+		return ast.EmptyCursor
+	}
+	return fieldBucket.IterateStringList()
 }
 
 func (collection *linkCollectionImpl) CheckIntegrity(ctx MutateContext, fix bool, errorSink func(err error, fixed bool)) error {
